@@ -75,8 +75,8 @@ def paired(ctx, fn, st, amt, block, consts):
         if isinstance(s, ast.Assign) and len(s.targets) == 1 and isinstance(s.targets[0], (ast.Name, ast.Attribute)):
             tgt = lin_of(s.targets[0], consts)
             new = lin_of(s.value, consts)
-            if tgt is not None and new is not None and new.sub(tgt) == want:
-                return s           # c = L  with  E == L - c
+            if tgt is not None and new is not None and (new.sub(tgt) == want or tgt.sub(new) == want):
+                return s           # c = L  with  E == L - c (a counter of what was emitted) or E == c - L (of what is still missing)
     return None
 
 
